@@ -19,3 +19,151 @@ Lemma leading_keys_example :
   map (gkey_of shape [0; 1; 2]) (seq 0 24) = map (fun i => Nat.modulo i 2) (seq 0 24) /\
   map (bkey_of shape [0; 1; 2]) (seq 0 24) = map (fun i => Nat.modulo i 2) (seq 0 24).
 Proof. vm_compute. repeat split; reflexivity. Qed.
+
+(* ---------- a leading block of axes: grouping = broadcasting = i mod G, for every shape ---------- *)
+From Coq Require Import Lia Bool.
+Lemma existsb_seq i k : existsb (Nat.eqb i) (seq 0 k) = Nat.ltb i k.
+Proof. destruct (Nat.ltb i k) eqn:E.
+  - apply existsb_exists. exists i. split; [apply in_seq; apply Nat.ltb_lt in E; lia|apply Nat.eqb_refl].
+  - apply Nat.ltb_ge in E. destruct (existsb (Nat.eqb i) (seq 0 k)) eqn:E'; [|reflexivity].
+    apply existsb_exists in E'. destruct E' as [x [Hx Hi]]. apply in_seq in Hx. apply Nat.eqb_eq in Hi. lia. Qed.
+Lemma remaining_from {A} k (l : list A) : forall s,
+  map snd (filter (fun ia => negb (existsb (Nat.eqb (fst ia)) (seq 0 k))) (combine (seq s (length l)) l)) = skipn (k - s) l.
+Proof. induction l as [|a l IH]; intros s; [destruct (k - s); reflexivity|].
+  cbn [length seq combine filter fst]. rewrite existsb_seq. destruct (Nat.ltb s k) eqn:E; cbn [negb].
+  - apply Nat.ltb_lt in E. rewrite IH. replace (k - s) with (S (k - S s)) by lia. reflexivity.
+  - apply Nat.ltb_ge in E. cbn [map snd]. rewrite IH. replace (k - S s) with 0 by lia. replace (k - s) with 0 by lia. reflexivity. Qed.
+Lemma remaining_leading {A} k (l : list A) : remaining (seq 0 k) l = skipn k l.
+Proof. unfold remaining. rewrite remaining_from. rewrite Nat.sub_0_r. reflexivity. Qed.
+Lemma unravel_length s : forall i, length (unravel s i) = length s.
+Proof. induction s as [|d s IH]; intros i; [reflexivity|]. cbn [unravel length]. rewrite IH. reflexivity. Qed.
+Lemma prod_cons d s : prod (d :: s) = d * prod s.
+Proof. reflexivity. Qed.
+Lemma prod_skipn_divides s : forall k, exists a, prod s = a * prod (skipn k s).
+Proof. induction s as [|d s IH]; intros k; [exists 1; destruct k; reflexivity|]. destruct k as [|k]; [exists 1; cbn [skipn]; lia|].
+  cbn [skipn]. destruct (IH k) as [a Ha]. exists (d * a). rewrite prod_cons, Ha. lia. Qed.
+Lemma mod_mod_mul i a c : c <> 0 -> (i mod (a * c)) mod c = i mod c.
+Proof. intros Hc. destruct (Nat.eq_dec a 0) as [->|Ha]; [reflexivity|].
+  rewrite (Nat.mul_comm a c), Nat.mod_mul_r by assumption.
+  rewrite (Nat.mul_comm c), Nat.mod_add by exact Hc. apply Nat.mod_mod. exact Hc. Qed.
+Lemma unravel_in_range s : forall i, i < prod s -> in_range s (unravel s i).
+Proof. induction s as [|d s IH]; intros i Hi; [constructor|]. cbn [unravel]. rewrite prod_cons in Hi.
+  assert (Hp : prod s <> 0) by (intros E; rewrite E in Hi; lia). constructor.
+  - apply Nat.div_lt_upper_bound; [exact Hp|lia].
+  - apply IH. apply Nat.mod_upper_bound. exact Hp. Qed.
+Lemma ravel_skipn s : forall k i, i < prod s -> ravel (skipn k s) (skipn k (unravel s i)) = i mod prod (skipn k s).
+Proof. induction s as [|d s IH]; intros k i Hi.
+  - destruct k; cbn; lia.
+  - destruct k as [|k].
+    + cbn [skipn]. rewrite ravel_unravel by exact Hi. symmetry. apply Nat.mod_small. exact Hi.
+    + cbn [skipn unravel]. rewrite prod_cons in Hi. assert (Hp : prod s <> 0) by (intros E; rewrite E in Hi; lia).
+      rewrite IH by (apply Nat.mod_upper_bound; exact Hp).
+      destruct (prod_skipn_divides s k) as [a Ha]. rewrite Ha at 1.
+      apply mod_mod_mul. intros E. rewrite E in Ha. lia. Qed.
+Lemma stretch_id rs : forall ix, Forall2 (fun i d => i < d) ix rs ->
+  map (fun de => if Nat.eqb (fst de) 1 then 0 else snd de) (combine rs ix) = ix.
+Proof. induction rs as [|d rs IH]; intros ix H; inversion H as [|i d' ix' rs' Hi Hr]; subst; [reflexivity|].
+  cbn [combine map fst snd]. rewrite (IH _ Hr). destruct (Nat.eqb d 1) eqn:E; [apply Nat.eqb_eq in E; f_equal; lia|reflexivity]. Qed.
+Lemma Forall2_skipn {A B} (P : A -> B -> Prop) l : forall m k, Forall2 P l m -> Forall2 P (skipn k l) (skipn k m).
+Proof. induction l as [|a l IH]; intros m k H; inversion H; subst; [destruct k; constructor|].
+  destruct k as [|k]; [exact H|]. cbn [skipn]. apply IH. assumption. Qed.
+
+Theorem leading_block_keys shape k i : k <= length shape -> i < prod shape ->
+  gkey_of shape (seq 0 k) i = i mod prod (skipn k shape) /\
+  bkey_of shape (seq 0 k) i = i mod prod (skipn k shape) /\
+  groups_of shape (seq 0 k) = prod (skipn k shape).
+Proof. intros Hk Hi. unfold gkey_of, bkey_of, groups_of. rewrite !remaining_leading.
+  split; [apply ravel_skipn; exact Hi|]. split; [|reflexivity].
+  cbv zeta. rewrite skipn_length. replace (length shape - (length shape - k)) with k by lia.
+  rewrite stretch_id; [apply ravel_skipn; exact Hi|].
+  apply Forall2_skipn. exact (unravel_in_range shape i Hi). Qed.
+Lemma broadcast_ok_leading shape k : k <= length shape -> broadcast_ok shape (seq 0 k) = true.
+Proof. intros Hk. unfold broadcast_ok. rewrite remaining_leading. cbv zeta. rewrite skipn_length.
+  replace (length shape - (length shape - k)) with k by lia.
+  induction (skipn k shape) as [|d l IH]; [reflexivity|]. cbn [combine forallb fst snd]. rewrite Nat.eqb_refl, orb_true_r. exact IH. Qed.
+
+(* ---------- the distribution theorems for normalize_distribution(axis = the first k axes) ---------- *)
+From Coq Require Import Reals.
+Require Import Num C13_Normalize C13_RBase.
+Local Open Scope nat_scope.
+Lemma gvals_ext (k1 k2 : nat -> nat) g cs : forall i0,
+  (forall i, i0 <= i < i0 + length cs -> k1 i = k2 i) -> rgvals k1 g i0 cs = rgvals k2 g i0 cs.
+Proof. induction cs as [|c cs IH]; intros i0 H; [reflexivity|]. cbn [gvals]. cbn [length] in H.
+  rewrite (H i0) by lia. rewrite (IH (S i0)) by (intros i Hi; apply H; lia). reflexivity. Qed.
+Lemma imap_ext_bound {A B} (f g : nat -> A -> B) l : forall i0,
+  (forall i a, i0 <= i < i0 + length l -> f i a = g i a) -> imap f i0 l = imap g i0 l.
+Proof. induction l as [|a l IH]; intros i0 H; [reflexivity|]. cbn [imap]. cbn [length] in H.
+  rewrite (H i0) by lia. rewrite (IH (S i0)) by (intros i x Hi; apply H; lia). reflexivity. Qed.
+Lemma imap_length {A B} (f : nat -> A -> B) l : forall i0, length (imap f i0 l) = length l.
+Proof. induction l as [|a l IH]; intros i0; [reflexivity|]. cbn [imap length]. rewrite IH. reflexivity. Qed.
+Lemma stats_ext (k1 k2 : nat -> nat) G (cs : list rcell) :
+  (forall i, i < length cs -> k1 i = k2 i) -> stats R_ops k1 G cs = stats R_ops k2 G cs.
+Proof. intros H.
+  assert (E : forall g, rgvals k1 g 0 cs = rgvals k2 g 0 cs) by (intros g; apply gvals_ext; intros i Hi; apply H; lia).
+  assert (Em : forall g, gmean R_ops k1 cs g = gmean R_ops k2 cs g) by (intros g; unfold gmean; rewrite E; reflexivity).
+  assert (Ec : forall g, gcount R_ops k1 cs g = gcount R_ops k2 cs g) by (intros g; unfold gcount; rewrite E; reflexivity).
+  assert (Es : forall g, gstd R_ops k1 cs g = gstd R_ops k2 cs g) by (intros g; unfold gstd; rewrite E, Em; reflexivity).
+  unfold stats. f_equal; apply map_ext; intros g; rewrite Ec, ?Em, ?Es; reflexivity. Qed.
+Lemma normalize_distribution_ext (g1 g2 b1 b2 : nat -> nat) G (cs : list rcell) :
+  (forall i, i < length cs -> g1 i = g2 i) -> (forall i, i < length cs -> b1 i = b2 i) ->
+  normalize_distribution R_ops g1 b1 G cs = normalize_distribution R_ops g2 b2 G cs.
+Proof. intros Hg Hb. unfold normalize_distribution. rewrite (stats_ext g1 g2 G cs Hg). f_equal.
+  unfold apply_stats. apply imap_ext_bound. intros i a Hi. rewrite Hb by lia. reflexivity. Qed.
+
+Section Leading.
+Variables (shape : list nat) (k : nat) (cs : list rcell).
+Hypothesis Hk : k <= length shape.
+Hypothesis Hlen : length cs = prod shape.
+Let axes := seq 0 k.
+Let G := groups_of shape axes.
+Let modk := fun i => Nat.modulo i G.
+Lemma keys_mod i : i < length cs -> gkey_of shape axes i = modk i /\ bkey_of shape axes i = modk i.
+Proof. intros Hi. rewrite Hlen in Hi. destruct (leading_block_keys shape k i Hk Hi) as (E1 & E2 & E3).
+  unfold modk, G, axes. rewrite E3. split; assumption. Qed.
+Lemma nd_mod : normalize_distribution R_ops (gkey_of shape axes) (bkey_of shape axes) G cs = normalize_distribution R_ops modk modk G cs.
+Proof. apply normalize_distribution_ext; intros i Hi; apply keys_mod; exact Hi. Qed.
+Lemma gvals_mod g (l : list rcell) : length l = length cs -> rgvals (gkey_of shape axes) g 0 l = rgvals modk g 0 l.
+Proof. intros Hl. apply gvals_ext. intros i Hi. apply keys_mod. lia. Qed.
+Lemma gmean_mod g (l : list rcell) : length l = length cs -> gmean R_ops (gkey_of shape axes) l g = gmean R_ops modk l g.
+Proof. intros Hl. unfold gmean. rewrite (gvals_mod g l Hl). reflexivity. Qed.
+Lemma gstd_mod g (l : list rcell) : length l = length cs -> gstd R_ops (gkey_of shape axes) l g = gstd R_ops modk l g.
+Proof. intros Hl. unfold gstd. rewrite (gvals_mod g l Hl), (gmean_mod g l Hl). reflexivity. Qed.
+Lemma G_pos g : observed (gkey_of shape axes) cs g -> G <> 0.
+Proof. intros Ho E. apply Ho. destruct cs as [|c l] eqn:Ec; [reflexivity|]. exfalso.
+  assert (Hp : prod shape <> 0) by (rewrite <- Hlen; cbn [length]; lia).
+  destruct (prod_skipn_divides shape k) as [a Ha]. unfold G, groups_of, axes in E. rewrite remaining_leading in E. rewrite E in Ha. lia. Qed.
+
+Theorem distribution_post_leading g : observed (gkey_of shape axes) cs g -> gstd R_ops (gkey_of shape axes) cs g <> 0%R ->
+  let out := fst (normalize_distribution R_ops (gkey_of shape axes) (bkey_of shape axes) G cs) in
+  gmean R_ops (gkey_of shape axes) out g = 0%R /\ gstd R_ops (gkey_of shape axes) out g = 1%R.
+Proof. intros Ho Hs out. pose proof (G_pos g Ho) as HG.
+  assert (Hout : length out = length cs) by (unfold out, normalize_distribution, apply_stats; cbn [fst]; apply imap_length).
+  unfold observed in Ho. rewrite (gvals_mod g cs eq_refl) in Ho. rewrite (gstd_mod g cs eq_refl) in Hs.
+  rewrite (gmean_mod g out Hout), (gstd_mod g out Hout). unfold out. rewrite nd_mod.
+  exact (distribution_post modk G (fun i => Nat.mod_upper_bound i G HG) cs g Ho Hs). Qed.
+Theorem distribution_mask_unchanged_leading :
+  map cm (fst (normalize_distribution R_ops (gkey_of shape axes) (bkey_of shape axes) G cs)) = map cm cs.
+Proof. rewrite nd_mod. destruct (Nat.eq_dec G 0) as [E|HG].
+  - (* no group at all: the body is empty *)
+    assert (Hc : cs = []).
+    { destruct cs as [|c l]; [reflexivity|]. exfalso. assert (Hp : prod shape <> 0) by (rewrite <- Hlen; cbn [length]; lia).
+      destruct (prod_skipn_divides shape k) as [a Ha]. unfold G, groups_of, axes in E. rewrite remaining_leading in E. rewrite E in Ha. lia. }
+    rewrite Hc. reflexivity.
+  - exact (distribution_mask_unchanged modk G (fun i => Nat.mod_upper_bound i G HG) cs). Qed.
+Theorem unnormalize_inverse_leading :
+  (forall g, observed (gkey_of shape axes) cs g -> gstd R_ops (gkey_of shape axes) cs g <> 0%R) ->
+  let r := normalize_distribution R_ops (gkey_of shape axes) (bkey_of shape axes) G cs in
+  cfilled R_ops (unnormalize_distribution R_ops (bkey_of shape axes) (fst (snd r)) (snd (snd r)) (fst r)) = cfilled R_ops cs.
+Proof. intros Hs r. unfold r. rewrite nd_mod. destruct (Nat.eq_dec G 0) as [E|HG].
+  - assert (Hc : cs = []).
+    { destruct cs as [|c l]; [reflexivity|]. exfalso. assert (Hp : prod shape <> 0) by (rewrite <- Hlen; cbn [length]; lia).
+      destruct (prod_skipn_divides shape k) as [a Ha]. unfold G, groups_of, axes in E. rewrite remaining_leading in E. rewrite E in Ha. lia. }
+    rewrite Hc. reflexivity.
+  - set (r' := normalize_distribution R_ops modk modk G cs).
+    assert (Hl : length (fst r') = length cs) by (unfold r', normalize_distribution, apply_stats; cbn [fst]; apply imap_length).
+    replace (unnormalize_distribution R_ops (bkey_of shape axes) (fst (snd r')) (snd (snd r')) (fst r'))
+      with (unnormalize_distribution R_ops modk (fst (snd r')) (snd (snd r')) (fst r')).
+    + apply (unnormalize_inverse modk G (fun i => Nat.mod_upper_bound i G HG) cs).
+      intros g Ho. rewrite <- (gstd_mod g cs eq_refl). apply Hs. unfold observed in *. rewrite (gvals_mod g cs eq_refl). exact Ho.
+    + unfold unnormalize_distribution. apply imap_ext_bound. intros i a Hi. destruct (keys_mod i) as [_ E2]; [lia|]. rewrite E2. reflexivity. Qed.
+End Leading.
